@@ -268,6 +268,11 @@ def record():
         return _RECORD["lines"]
     wd = os.path.join(vlib.WORK, "suite")
     os.makedirs(wd, exist_ok=True)
+    # one recording at a time (C05, C08 and C18 all use it and may be started concurrently)
+    import fcntl
+    lock = open(os.path.join(wd, "record.lock"), "w")
+    fcntl.flock(lock, fcntl.LOCK_EX)
+    _RECORD["lock"] = lock
     trace = os.path.join(wd, "derive_trace.ndjson")
     if os.path.exists(trace):
         os.remove(trace)
@@ -283,6 +288,7 @@ def record():
         lines = [json.loads(l) for l in open(trace) if l.strip()]
     _RECORD["lines"] = lines
     _RECORD["cargo"] = p
+    fcntl.flock(lock, fcntl.LOCK_UN)
     return lines
 
 
